@@ -6,6 +6,7 @@ R14.2 RoutingTable::entry answers LocalNode exactly on the None edge of BucketIn
 R14.3 eviction safety: a Vacant entry over an existing slot is produced only on the NotConnected / CannotConnect edges of the same
       element; Occupied only on the key-equality edge of the same element; KBucketEntry::insert writes only on the Vacant edge
 R14.4 table geometry: NUM_BUCKETS == 256; BucketIndex::new is ilog2 of the distance, unmodified
+R14.6 connection-state bookkeeping: a stored peer with an established connection is marked Connected on every path
 R14.5 closest_iter plumbing: sort key is target.distance(peer.key); the filter keeps exactly peers whose address store is non-empty;
       RoutingTable::closest takes `limit` elements
 Not decided: ordering/exactness of closest() over all targets (value reasoning).
@@ -210,6 +211,29 @@ def r14_3(ctx, fx):
                        detail="roots: %s" % sorted(rs))
 
 
+def r14_6(ctx, fx):
+    """connection-state bookkeeping that the eviction rule relies on: RoutingTable::on_connection_established marks the stored
+    peer Connected on every path from the Occupied edge (whatever the direction of the connection); Kademlia::disconnect_peer marks
+    it NotConnected"""
+    fn = ctx.fn(fx, RT + "RoutingTable::on_connection_established", "R14.6")
+    if fn is not None:
+        sws = [sw for sw in fn.discr_switches() if sw[2] and sw[2].endswith("KBucketEntry")]
+        ctx.anchor("R14.6", "on_connection_established: match on the entry", len(sws), 1, cfg=fx.cfg)
+        marks = [n for n, st in fn.assigns() if "".join(st["lhs"][1:]).endswith(".connection") and fn.shape(st["rv"]["o"] if st["rv"]["r"] == "use" else {"k": {}}) == {"Connected"} or
+                 ("".join(st["lhs"][1:]).endswith(".connection") and st["rv"]["r"] == "agg" and st["rv"].get("var") == "Connected")]
+        ctx.anchor("R14.6", "on_connection_established: entry.connection = Connected", len(marks), 1, cfg=fx.cfg)
+        for sw in sws[:1]:
+            e = fn.variant_edges(sw, "Occupied")
+            starts = [n for n, l in fn.succs(sw[0]) if l in e]
+            p = fn.witness_path(starts, fn.return_nodes(), avoid=marks)
+            ctx.ob("R14.6", "RoutingTable::on_connection_established/stored-peer-always-marked-Connected", bool(e) and p is None, site=fn.site(sw[0]), cfg=fx.cfg,
+                   detail="a path on which a peer with an established connection stays evictable: %s" % (fn.path_sites(p) if p else None))
+    fn = ctx.fn(fx, "protocol::libp2p::kademlia::Kademlia::disconnect_peer::{closure#0}", "R14.6")
+    if fn is not None:
+        marks = [n for n, st in fn.assigns() if "".join(st["lhs"][1:]).endswith(".connection") and ((st["rv"]["r"] == "agg" and st["rv"].get("var") == "NotConnected") or (st["rv"]["r"] == "use" and fn.shape(st["rv"]["o"]) == {"NotConnected"}))]
+        ctx.ob("R14.6", "Kademlia::disconnect_peer/marks-the-entry-NotConnected", bool(marks), site=fn.site(fn.entry), cfg=fx.cfg, nontrivial=False)
+
+
 def r14_4(ctx, fx):
     nb = None
     for k, v in fx.consts.items():
@@ -271,4 +295,5 @@ def run(ctx):
     r14_3(ctx, fx)
     r14_4(ctx, fx)
     r14_5(ctx, fx)
+    r14_6(ctx, fx)
     ctx.assume("Distance::ilog2 returns None exactly for distance 0 and a value < 256 otherwise (U256 arithmetic, trusted)")
